@@ -348,7 +348,19 @@ static std::string check_quaint(const Case& c, vf::Ctx& ctx)
             }
             case Q_MOVE_ASSIGN:
                 if (a == b)
-                    break; // self move assignment: not part of the statement
+                {
+                    // a move assignment whose source and target coincide is still "a move": the
+                    // pointer keeps what it owns (or stays empty) and the payload is destroyed
+                    // exactly once, later
+                    quaint_ptr& self = slot[b];
+                    slot[a] = std::move(self);
+                    ctx.tag("q:self-move-assign");
+                    if (static_cast<bool>(slot[a]) != (ms[a].id != 0))
+                        err = std::string("after a self move assignment the pointer is ") +
+                              (slot[a] ? "owning" : "empty") + " but it was " +
+                              (ms[a].id ? "owning" : "empty") + " before" + when;
+                    break;
+                }
                 if (ms[a].id && ms[b].id)
                 {
                     nontrivial = true;
